@@ -16,6 +16,45 @@ def documented_orders():
     return mdc, emc
 
 
+def documented_from_page(text):
+    """what docs/user-manual/detector/global-id.md itself says: MDC range and order, the three EMC ranges with their increasing order
+    (theta ascending or `-theta`), the ring tables of the two endcaps.  Returns (facts, emc_order built from the page)"""
+    import re
+    rows = [[c.strip() for c in l.strip().strip("|").split("|")] for l in text.splitlines() if l.strip().startswith("|")]
+    facts = {"mdc": None, "emc_parts": {}, "rings": {}}
+    for r in rows:
+        if len(r) == 2 and re.fullmatch(r"\d+~\d+", r[0]) and "layer" in r[1]:
+            facts["mdc"] = [int(x) for x in r[0].split("~")] + [r[1].replace(" ", "")]
+        if len(r) == 3 and re.fullmatch(r"\d+~\d+", r[0]) and "theta" in r[1] and r[2] in ("Endcap 0", "Barrel", "Endcap 1"):
+            facts["emc_parts"][r[2]] = [int(x) for x in r[0].split("~")] + [r[1].replace(" ", "")]
+        if len(r) == 4 and re.fullmatch(r"\d+~\d+", r[0]) and r[1].isdigit() and r[2].isdigit():
+            lo, hi = [int(x) for x in r[0].split("~")]
+            facts["rings"].setdefault("Endcap 0" if lo < 480 else "Endcap 1", []).append([lo, hi, int(r[1]), int(r[2])])
+    order = []
+    try:
+        for part, name in ((0, "Endcap 0"), (1, "Barrel"), (2, "Endcap 1")):
+            lo, hi, inc = facts["emc_parts"][name]
+            if len(order) != lo:
+                return facts, None
+            if name == "Barrel":
+                if inc != "(theta,phi)" or (hi - lo + 1) != 44 * 120:
+                    return facts, None
+                order += [[1, th, f] for th in range(44) for f in range(120)]
+            else:
+                for rlo, rhi, cnt, th in facts["rings"][name]:
+                    if len(order) != rlo or rhi - rlo + 1 != cnt:
+                        return facts, None
+                    order += [[part, th, f] for f in range(cnt)]
+                ths = [r[3] for r in facts["rings"][name]]
+                if (inc == "(theta,phi)" and ths != sorted(ths)) or (inc == "(-theta,phi)" and ths != sorted(ths, reverse=True)) or inc not in ("(theta,phi)", "(-theta,phi)"):
+                    return facts, None
+            if len(order) != hi + 1:
+                return facts, None
+    except (KeyError, ValueError):
+        return facts, None
+    return facts, order
+
+
 def regenerate(ck, with_digi=True):
     """shared by C08/C09/C10/C14: regenerate DigiId.v + integer geometry model; returns True when it compiled"""
     try:
@@ -49,6 +88,20 @@ def run(ck: vlib.Check):
     if ok:
         ck.prove(["C05Proofs.v", "C08Proofs.v"], "C08.v")
     mdc, emc = documented_orders()
+    # the specification IS the documentation page: re-read it on every run and compare with the enumeration the theorems are stated on
+    try:
+        facts, page_emc = documented_from_page((vlib.REPO / "docs" / "user-manual" / "detector" / "global-id.md").read_text())
+    except Exception as e:  # noqa
+        facts, page_emc = {"error": str(e)}, None
+    ck.cov["documentation_page"] = {"mdc": facts.get("mdc"), "emc_parts": facts.get("emc_parts"), "rings_rows": {k: len(v) for k, v in (facts.get("rings") or {}).items()}}
+    if facts.get("mdc") != [0, 6795, "(layer,wire)"]:
+        ck.tie_broken("specification", "global-id.md:MDC", f"the page documents {facts.get('mdc')}, the theorems are stated for gid 0~6795 in (layer, wire) order")
+    if page_emc is None:
+        ck.tie_broken("specification", "global-id.md:EMC", f"the EMC tables of the page could not be read as a dense numbering: {json.dumps(facts)[:400]}")
+    elif page_emc != emc:
+        k = next(i for i, (a, b) in enumerate(zip(page_emc, emc)) if a != b) if len(page_emc) == len(emc) else min(len(page_emc), len(emc))
+        ck.tie_broken("specification", "global-id.md:EMC", f"the page's numbering differs from the enumeration the theorems are stated on, first at gid {k}")
+        emc = page_emc      # the implementation is judged against what the page says
     sample = []
     for _ in range(120):
         l = ck.rng.randrange(43); w = ck.rng.randrange(WIRES[l])
